@@ -391,21 +391,6 @@ Section Core.
     | None => default_value sp
     end.
 
-  (* methods/core.py:DelAttrMethod *)
-  Definition delattr_ (l : loc) (a : aid) (force skip : bool) : M val :=
-    p <- read_inst l ;; k <- cls_of (fst p) ;;
-    (if negb (force || initializing (snd p)) && c_frozen k
-     then fail FrozenErr else ret tt) ;;;
-    match (if force then None else lookup_attr k a) with
-    | Some sp =>
-        d <- lookup_default_value sp k ;;
-        if is_missing d
-        then raw_delattr l a ;;; (if skip then ret tt else invalidate_attrs l a) ;;; ret VNone
-        else mutate_attr l a d true true true skip
-    | None =>
-        raw_delattr l a ;;; (if skip then ret tt else invalidate_attrs l a) ;;; ret VNone
-    end.
-
   (* type_instantiate / constructor() for a non-spec type *)
   Definition instantiate_ty (t : ty) : M val :=
     match t with
@@ -794,6 +779,23 @@ Section Core.
                         (match a_prepare sp with Some f => PAttr f | None => PNone end)
                         attrs (Some (ctor_of_ty (a_ty sp))) (Some (a_ty sp)) None [] false)) ;;
       if ty_is_collection (a_ty sp) then coll_prepare sp inst v else ret v
+    end.
+
+  (* methods/core.py:DelAttrMethod: the default is prepared exactly as the
+     constructor and assignment prepare a value *)
+  Definition delattr_ (l : loc) (a : aid) (force skip : bool) : M val :=
+    p <- read_inst l ;; k <- cls_of (fst p) ;;
+    (if negb (force || initializing (snd p)) && c_frozen k
+     then fail FrozenErr else ret tt) ;;;
+    match (if force then None else lookup_attr k a) with
+    | Some sp =>
+        d <- lookup_default_value sp k ;;
+        if is_missing d
+        then raw_delattr l a ;;; (if skip then ret tt else invalidate_attrs l a) ;;; ret VNone
+        else (v <- prepare_attr_value sp l d None ;;
+              mutate_attr l a v true true true skip)
+    | None =>
+        raw_delattr l a ;;; (if skip then ret tt else invalidate_attrs l a) ;;; ret VNone
     end.
 
   (* methods/core.py:SetAttrMethod *)
